@@ -53,6 +53,10 @@ func timeErr(s string) bool {
 // observe displays m (twice) and returns the event for it.
 func observe(m *handler.Message, key, scenario string) c15Event {
 	ev := c15Event{Key: key, Scenario: scenario}
+	if m == nil {
+		ev.Panic = "GetMessage panicked or returned nil"
+		return ev
+	}
 	ev.Panic = tr.Recover(func() {
 		before := append([]byte{}, m.RawData...)
 		t1 := m.String()
@@ -75,6 +79,17 @@ func observe(m *handler.Message, key, scenario string) c15Event {
 	return ev
 }
 
+// safeGet never lets a panic of the library kill the driver: a nil message is reported by observe.
+func safeGet(h *handler.Handler, f []byte) (m *handler.Message) {
+	defer func() {
+		if recover() != nil {
+			m = nil
+		}
+	}()
+	m, _ = h.GetMessage(f)
+	return m
+}
+
 func c15Pool(rng *rand.Rand, n int) [][]byte {
 	var pool [][]byte
 	add := func(f []byte) { pool = append(pool, f) }
@@ -95,6 +110,14 @@ func c15Pool(rng *rand.Rand, n int) [][]byte {
 				add(tr.Frame(p))
 			}
 		case 5:
+			if i%18 == 5 {
+				for _, p := range gen.TwinMSMs(rng, gen.MSMTypes[rng.Intn(14)]) {
+					if len(p) <= 1023 {
+						add(tr.Frame(p))
+					}
+				}
+				break
+			}
 			add(gen.Frame(rng, []int{1230, 1019, 4095, 0, 1033}[rng.Intn(5)], 1+rng.Intn(80), 0))
 		case 6:
 			j := gen.Junk(rng, 1+rng.Intn(60), rng.Intn(3))
@@ -139,11 +162,23 @@ func c15(args []string) {
 	}
 	key := func(i int, lv slog.Level) string { return fmt.Sprintf("%d/%s", i, lv) }
 
+	if len(args) > 1 && args[1] == "reverse" {
+		// a fresh process that meets the frames in the opposite order: anything process-wide that is
+		// learnt from earlier frames (caches, memo tables) now learns from the other neighbour first
+		for _, lv := range levels {
+			for i := len(pool) - 1; i >= 0; i-- {
+				h := handler.New(start, lv)
+				m := safeGet(h, pool[i])
+				emit(observe(m, key(i, lv), "fresh-process-reverse-order"))
+			}
+		}
+		return
+	}
 	// A: canonical pass - each frame first on a fresh handler
 	for _, lv := range levels {
 		for i, f := range pool {
 			h := handler.New(start, lv)
-			m, _ := h.GetMessage(f)
+			m := safeGet(h, f)
 			ev := observe(m, key(i, lv), "fresh")
 			if i%25 == 0 {
 				ev.Sample = stripTime(m.String())
@@ -162,10 +197,13 @@ func c15(args []string) {
 			var held *handler.Message
 			heldIdx := 0
 			for n, i := range order {
-				m, _ := h.GetMessage(pool[i])
+				m := safeGet(h, pool[i])
 				if n%3 == 1 && m != nil {
 					// decode now, display only after the next frame has been decoded and displayed
-					handler.Analyse(m)
+					if p := tr.Recover(func() { handler.Analyse(m) }); p != "" {
+						emit(c15Event{Key: key(i, lv), Scenario: "after-others", Panic: p})
+						continue
+					}
 					held, heldIdx = m, i
 					continue
 				}
@@ -175,7 +213,7 @@ func c15(args []string) {
 					held = nil
 				}
 				if n%5 == 0 { // immediate repetition
-					m2, _ := h.GetMessage(pool[i])
+					m2 := safeGet(h, pool[i])
 					emit(observe(m2, key(i, lv), "repeat"))
 				}
 			}
@@ -192,7 +230,7 @@ func c15(args []string) {
 			lv := levels[g%2]
 			h := handler.New(start, lv)
 			for _, i := range lr.Perm(len(pool)) {
-				m, _ := h.GetMessage(pool[i])
+				m := safeGet(h, pool[i])
 				if m == nil {
 					continue
 				}
@@ -235,7 +273,9 @@ func c15(args []string) {
 		defer cw.Done()
 		for m := range ch1 {
 			mm := m
-			_ = mm.String()
+			if p := tr.Recover(func() { _ = mm.String() }); p != "" {
+				emit(c15Event{Key: "fanout-consumer1", Scenario: "fanout", Panic: p})
+			}
 			mm.MessageType = -7
 			mm.ErrorMessage = "scribble"
 			mm.Readable = "scribble"
